@@ -52,6 +52,13 @@ type Check struct {
 	Scenarios func(tier string) []*explore.Scenario
 }
 
+func reportID(ch *Check) string {
+	if ch.ReportAs != "" {
+		return ch.ReportAs
+	}
+	return ch.ID
+}
+
 // TraceMain prints the trace of one execution of scenario idx with the given choices.
 func TraceMain(id, tier string, idx int, choices []int, policy int, demotion bool) int {
 	ch := registry[id]
@@ -353,7 +360,7 @@ func WorkerMain(id, tier string, shard, n int, deadline time.Time) int {
 	}
 	seed, _ := strconv.ParseInt(os.Getenv("VERIF_SEED"), 10, 64)
 	c := &Ctx{Check: ch, Tier: tier, Shard: shard, NShards: n, Deadline: deadline, Seed: seed,
-		Res: &WorkerResult{KnownHits: map[string]int{}, Extra: map[string]interface{}{}}, Known: LoadKnown(id), sigSeen: map[string]bool{}}
+		Res: &WorkerResult{KnownHits: map[string]int{}, Extra: map[string]interface{}{}}, Known: LoadKnown(reportID(ch)), sigSeen: map[string]bool{}}
 	func() {
 		defer func() {
 			if r := recover(); r != nil {
@@ -626,7 +633,7 @@ func CheckMain(id, tier string) int {
 		fmt.Printf("  signature: %s\n  %s\n", v.Sig, firstLines(v.Msg, 12))
 		exit = 1
 	}
-	kf := LoadKnown(id)
+	kf := LoadKnown(prop)
 	var ks []string
 	for k := range known {
 		ks = append(ks, k)
